@@ -1,12 +1,12 @@
 package main
 
 import (
-	"math/big"
 	"bytes"
 	"encoding/base64"
 	"encoding/binary"
 	"encoding/json"
 	"fmt"
+	"math/big"
 	"os"
 	"path/filepath"
 	"runtime"
